@@ -17,6 +17,7 @@ THEOREMS = [
     "C11_kind_tables_scope", "C11_kind_tables_scope_complete",
     "C11_lookup_order", "C11_lookup_first_match", "C11_absent_plain", "C11_case_insensitive", "C11_no_abort",
     "C11_child_kind_error", "C11_child_sound", "C11_project_order", "C11_lookup_item_kind_word",
+    "C11_link_only_documented", "C11_displayed_is_documented",
 ]
 
 COMP_KINDS = ["procedure", "proc", "subroutine", "function", "interface", "absinterface", "block", "type", "file",
@@ -59,7 +60,8 @@ def proj_term(ab):
     for e in ab.ents:
         attrs = coq_list(f"({coq_str(a)}, {aval_term(v)})" for a, v in e["attrs"])
         ents.append(f"mk_ent {coq_str(e['name'])} {attrs} {coq_opt(e['parent'], str)} "
-                    f"{core.coq_bool(e['url'] is not None)}")
+                    f"{core.coq_bool(e['url'] is not None)} {core.coq_bool(e['owns_page'])} "
+                    f"{core.coq_bool(e['visible'])} {core.coq_bool(e['iface_proc'])}")
     cols = coq_list(f"({coq_str(c)}, {coq_list(str(i) for i in ids)})" for c, ids in ab.cols.items())
     return "{| p_ents := " + coq_list(ents) + "; p_cols := " + cols + " |}"
 
@@ -209,6 +211,46 @@ contains
   end function
 end module
 """,
+    "src/c.f90": """module mc
+  !! mc doc
+  implicit none
+  private
+  public :: visible_sub, shown, pubgen
+  integer :: init !! a private module variable
+  interface pubgen
+    !! a public generic name for the private function
+    module procedure helper
+  end interface
+  type :: hidden_t
+    !! a private type
+    integer :: init !! component of a private type
+  end type
+  type :: shown
+    !! a public type
+    integer :: init !! component of a public type
+  end type
+  interface
+    subroutine ext_s(q, init)
+      !! explicit interface (private)
+      integer :: q !! arg q
+      integer :: init !! arg init
+    end subroutine
+  end interface
+contains
+  function helper(y) result(res_helper)
+    !! a private function
+    integer :: y !! arg y
+    integer :: res_helper !! result
+    integer :: init !! local of a private function
+    res_helper = y
+  end function
+  subroutine visible_sub(y)
+    !! a public subroutine
+    integer :: y !! arg y
+    integer :: init !! local of a public subroutine
+  end subroutine
+end module
+""",
     "src/b.f90": """module mb
   !! mb doc
   use ma
@@ -231,7 +273,9 @@ subroutine reset()
 end subroutine
 """,
 }
-CORPUS_REFS = ["n(variable)", "N(Variable)", "fin(final)", "reset(BOUND)", "counter(variable)", "x(variable)",
+CORPUS_REFS = ["init", "init(variable)", "helper", "helper(proc)", "hidden_t", "hidden_t:init", "shown:init", "ext_s",
+               "ext_s:q", "q", "y", "res_helper", "visible_sub:init", "helper:init", "mc:helper", "mc:init", "cb:x",
+               "n(variable)", "N(Variable)", "fin(final)", "reset(BOUND)", "counter(variable)", "x(variable)",
                "reset", "reset(proc)", "reset(subroutine)", "reset(function)", "reset(bound)", "shape:reset",
                "shape:reset(bound)", "shape(type):n", "helper", "helper(function)", "ma:helper", "MA(Module):Helper(FUNCTION)",
                "mb:helper", "x", "counter", "ma:counter(variable)", "ma:nosuch", "ma:helper(bound)", "ma(foo)",
@@ -529,6 +573,25 @@ def regressions(chk):
                                                 "files": files}, True)
     finally:
         w.__exit__()
+    w, p, ab, md, base = setup_project({"src/c.f90": CORPUS_FILES["src/c.f90"], "src/a.f90": CORPUS_FILES["src/a.f90"]})
+    try:
+        def ent(name, parent_name):
+            return next(i for i, e in enumerate(ab.ents) if e["name"] == name and e["parent"] is not None
+                        and ab.ents[e["parent"]]["name"] == parent_name)
+        cb_proc = next(i for i, e in enumerate(ab.ents) if e["name"] == "cb" and e["iface_proc"])
+        x = L.convert(md, base, ab, cb_proc, "[[x]]")
+        if x[0] != "link" or x[1] != [ent("x", "cb")]:
+            chk.violation("failing-input", {"what": "regression: the argument of a procedure in an interface block is "
+                                                    "not linked from the documentation of that procedure",
+                                            "impl": list(x[:3])}, True)
+        for ctx_name, par, ref in [("res_helper", "helper", "[[init]]"), ("y", "helper", "[[helper:init]]")]:
+            r = L.convert(md, base, ab, ent(ctx_name, par), ref)
+            if r[0] != "plain":
+                chk.violation("failing-input", {"what": "regression: a reference to the local variable of a function "
+                                                        "that is not displayed is not plain text", "ref": ref,
+                                                "impl": list(r[:3])}, True)
+    finally:
+        w.__exit__()
     with F.Work({"src/a.f90": "module m\n  !! See [[m:reset(bound)]] here.\ncontains\n  subroutine reset()\n"
                               "  end subroutine\nend module\n"}) as w1:
         data, log, err = F.full_run_inprocess(w1.root, {})
@@ -558,7 +621,9 @@ def direct_batch(chk, rng, projects, what):
     defs, cases, infos = [], [], []
     dist = chk.extra.setdefault("generator_distribution", {"projects": 0, "entities": 0, "queries": 0, "link": 0,
                                                            "plain": 0, "err": 0, "with_context": 0, "with_kind": 0,
-                                                           "with_item": 0})
+                                                           "with_item": 0, "not_displayed": 0,
+                                                           "not_displayed_without_context": 0,
+                                                           "interface_argument_linked": 0})
     for n, (files, settings, fixed, nrandom) in enumerate(projects):
         w, p, ab, md, base = setup_project(files, **settings)
         try:
@@ -583,6 +648,12 @@ def direct_batch(chk, rng, projects, what):
             dist["with_context"] += ctx is not None
             dist["with_kind"] += r[1] is not None
             dist["with_item"] += r[2] is not None
+            if x[0] == "plain" and x[2] == "not-displayed":
+                dist["not_displayed"] += 1
+                dist["not_displayed_without_context"] += ctx is None
+            if x[0] == "link" and any(ab.ents[j]["parent"] is not None and ab.ents[ab.ents[j]["parent"]]["iface_proc"]
+                                      for j in x[1]):
+                dist["interface_argument_linked"] += 1
             chk.count(("q", n, ctx, r), nontrivial=x[0] != "plain",
                       sample={"context": ab.ents[ctx]["name"] if ctx is not None else None, "ref": ref_text(r),
                               "impl": list(x[:3])})
@@ -610,11 +681,13 @@ def run(chk):
                 "iso_c_binding", "iso_c_binding(extmodule)", "mpi:n", "openacc"]
     projects = [(ext_files, {}, lambda ab: [(c, t) for c in [None] + ab.contexts() for t in ext_refs], 20),
                 (CORPUS_FILES, {}, corpus_queries, 40),
+                (CORPUS_FILES, {"incl_src": False}, corpus_queries, 20),
                 (CORPUS_FILES, {"display": ["public", "private", "protected"], "proc_internals": True},
                  corpus_queries, 40)]
     for i in range(4 if quick else 40):
-        pj = G.gen(rng, {"p_private": 0.25 if i % 2 else 0.0})
-        settings = {} if i % 3 else {"display": ["public", "private", "protected"]}
+        pj = G.gen(rng, {"p_private": 0.35 if i % 4 else 0.0})
+        settings = {"display": ["public", "private", "protected"]} if i % 3 == 0 else \
+            {"incl_src": False} if i % 3 == 1 else {}
         projects.append((G.fill(pj["files"], {}), settings, lambda ab: [], 120 if quick else 300))
     for i in range(0, len(projects), 8):
         direct_batch(chk, rng, projects[i:i + 8], "one reference converted by the real markdown pipeline in a context")
